@@ -44,23 +44,24 @@ func TestMain(m *testing.M) {
 }
 
 type Case struct {
-	Shape     string `json:"shape"`      // unary | client | server | bidi
-	Transport string `json:"transport"`  // http | httpget | grpc | grpcweb
-	Sizes     []int  `json:"sizes"`      // encoded (protobuf) length of each request message
-	Replies   int    `json:"replies"`    // replies the handler sends (streaming server side)
-	FailAfter int    `json:"fail_after"` // -1 = OK; k = error after k replies
-	UnaryInt  bool   `json:"unary_int"`
-	StreamInt bool   `json:"stream_int"`
-	Stats     bool   `json:"stats"`
-	Behaviour string `json:"behaviour"`  // pass | replace-reply | replace-error | context
-	Proxied   bool   `json:"proxied"`    // the service is a backend registered with RegisterConn
-	Meta      bool   `json:"meta"`       // the handler sets header and trailer metadata
-	RawReply  bool   `json:"raw_reply"`  // unary/server shapes: the method replies with google.api.HttpBody (raw bytes on HTTP)
-	Encoding  string `json:"encoding"`   // gRPC / gRPC-web: grpc-encoding of the request ("" | identity | gzip)
-	SendLimit int    `json:"send_limit"` // MaxSendMessageSize of the mux (0 = default): replies of 200 bytes do not fit a small limit
-	BadBody   int    `json:"bad_body"`   // http: k > 0 makes the k-th message of the body ill-typed JSON (it reads fine and does not decode: nobody ever receives it)
-	BadQuery  string `json:"bad_query"`  // http / httpget: a query string the method can not accept (the RPC is refused before the handler)
-	StrayBody string `json:"stray_body"` // httpget: body sent although the binding maps none ("" = none; a leading "~" = unknown length)
+	Shape      string `json:"shape"`      // unary | client | server | bidi
+	Transport  string `json:"transport"`  // http | httpget | grpc | grpcweb
+	Sizes      []int  `json:"sizes"`      // encoded (protobuf) length of each request message
+	Replies    int    `json:"replies"`    // replies the handler sends (streaming server side)
+	FailAfter  int    `json:"fail_after"` // -1 = OK; k = error after k replies
+	UnaryInt   bool   `json:"unary_int"`
+	StreamInt  bool   `json:"stream_int"`
+	Stats      bool   `json:"stats"`
+	Behaviour  string `json:"behaviour"`   // pass | replace-reply | replace-error | context
+	Proxied    bool   `json:"proxied"`     // the service is a backend registered with RegisterConn
+	LateHeader bool   `json:"late_header"` // the handler uses the header API again after its headers went out (SetHeader after SendHeader / after its first reply) and returns the refusal if there is one
+	Meta       bool   `json:"meta"`        // the handler sets header and trailer metadata
+	RawReply   bool   `json:"raw_reply"`   // unary/server shapes: the method replies with google.api.HttpBody (raw bytes on HTTP)
+	Encoding   string `json:"encoding"`    // gRPC / gRPC-web: grpc-encoding of the request ("" | identity | gzip)
+	SendLimit  int    `json:"send_limit"`  // MaxSendMessageSize of the mux (0 = default): replies of 200 bytes do not fit a small limit
+	BadBody    int    `json:"bad_body"`    // http: k > 0 makes the k-th message of the body ill-typed JSON (it reads fine and does not decode: nobody ever receives it)
+	BadQuery   string `json:"bad_query"`   // http / httpget: a query string the method can not accept (the RPC is refused before the handler)
+	StrayBody  string `json:"stray_body"`  // httpget: body sent although the binding maps none ("" = none; a leading "~" = unknown length)
 }
 
 // The proxied variant: one real backend serves un.C18 with the handlers of
@@ -346,6 +347,13 @@ func execute(c Case, unaryInt, streamInt, withStats bool, behaviour string) (run
 			hl.err = errNoIncoming
 			return nil, errNoIncoming
 		}
+		if c.LateHeader {
+			grpc.SendHeader(ctx, metadata.Pairs("x-early", "1"))
+			if err := grpc.SetHeader(ctx, metadata.Pairs("x-late", "1")); err != nil {
+				hl.err = err
+				return nil, err
+			}
+		}
 		if c.FailAfter >= 0 {
 			hl.err = errScripted
 			return nil, errScripted
@@ -401,6 +409,12 @@ func execute(c Case, unaryInt, streamInt, withStats bool, behaviour string) (run
 				return err
 			}
 			hl.sent++
+			if c.LateHeader && i == 0 {
+				if err := ss.SetHeader(metadata.Pairs("x-late", "1")); err != nil {
+					hl.err = err
+					return err
+				}
+			}
 		}
 		if c.FailAfter >= 0 && c.FailAfter >= n {
 			hl.err = errScripted
@@ -590,7 +604,7 @@ func Check(c Case) []evid.Violation {
 				}
 			}
 		}
-		if unaryMethod && c.FailAfter < 0 && !strings.Contains(plain, "sssss") {
+		if unaryMethod && c.FailAfter < 0 && hl.err == nil && !strings.Contains(plain, "sssss") {
 			return fail("interceptor-result", "replaced-reply-not-seen", "client does not see the interceptor's reply: %q", got.body)
 		}
 	}
@@ -641,7 +655,7 @@ func Check(c Case) []evid.Violation {
 		// A backend's failing script may send replies that gRPC itself never
 		// delivers to the proxy; counts are compared for proxied calls only
 		// when the script succeeds.
-		countsComparable := !c.Proxied || c.FailAfter < 0
+		countsComparable := !c.Proxied || (c.FailAfter < 0 && !c.LateHeader)
 		if countsComparable && nIn != hl.recv {
 			return fail("stats", "inpayload-count", "InPayload x%d but the handler received %d messages (%v)", nIn, hl.recv, ks)
 		}
@@ -702,6 +716,7 @@ func genCase(t *rapid.T) Case {
 	c.Stats = rapid.Bool().Draw(t, "stats")
 	c.Behaviour = rapid.SampledFrom([]string{"pass", "pass", "replace-reply", "replace-error", "context"}).Draw(t, "behaviour")
 	c.Meta = rapid.Bool().Draw(t, "meta")
+	c.LateHeader = rapid.IntRange(0, 5).Draw(t, "lateHeader") == 0
 	if (c.Transport == "http" || c.Transport == "httpget") && rapid.IntRange(0, 7).Draw(t, "badQuery") == 0 {
 		c.BadQuery = rapid.SampledFrom([]string{"nope=1", "f_int32=two", "f_string=a&nope.x=1", "r_leaf.count=1"}).Draw(t, "badQueryV")
 	}
@@ -748,6 +763,9 @@ func TestProp(t *testing.T) {
 		}
 		if c.BadBody > 0 {
 			cl = append(cl, "message-that-does-not-decode")
+		}
+		if c.LateHeader {
+			cl = append(cl, "header-api-used-after-the-headers-went-out")
 		}
 		if c.SendLimit > 0 {
 			cl = append(cl, "send-limit")
